@@ -12,6 +12,7 @@ use crate::hist::Hist;
 pub mod agenda;
 pub mod fault;
 pub mod flow;
+pub mod sink;
 pub mod time;
 
 #[derive(Clone, Debug, serde::Serialize, serde::Deserialize)]
@@ -129,26 +130,10 @@ pub struct Delivery {
 /// run time (`Op::Connect`) that completed before the send began.
 pub fn expected_deliveries(case: &Case, actor: Actor, port: u16, salt: u32, extra: &[(u16, u8, Edge)]) -> Vec<Delivery> {
     let mut out = Vec::new();
-    let edges: Vec<Edge> = match (actor, port) {
-        (Actor::Node(n), p) if p < 1000 => {
-            let mut v = resolve_port(case, n as usize, p as usize);
-            // Dynamically added connections on this port (or on the port it is a clone of).
-            let (rn, rp) = port_root(case, n as usize, p as usize);
-            for (xn, xp, e) in extra {
-                if port_root(case, *xn as usize, *xp as usize) == (rn, rp) {
-                    v.push(e.clone());
-                }
-            }
-            v
-        }
-        (Actor::Node(n), p) if p < 2000 => case.nodes[n as usize].reqs.get((p - 1000) as usize).cloned().unwrap_or_default(),
-        (_, p) if (2000..3000).contains(&p) => {
-            out.push(Delivery { target: Target::Node(p - 2000), via: 0 });
-            vec![]
-        }
-        (_, p) if p >= 3000 => case.sources.get((p - 3000) as usize).map(|s| s.edges.clone()).unwrap_or_default(),
-        _ => vec![],
-    };
+    let edges: Vec<Edge> = connections(case, actor, port, extra);
+    if (2000..3000).contains(&port) {
+        out.push(Delivery { target: Target::Node(port - 2000), via: 0 });
+    }
     for e in edges {
         if e.cid != 0 && e.accepts(salt) {
             out.push(Delivery { target: e.target, via: e.via() });
@@ -156,6 +141,51 @@ pub fn expected_deliveries(case: &Case, actor: Actor, port: u16, salt: u32, extr
     }
     out.sort();
     out
+}
+
+/// The connections of a port in connection order: the static ones, then those
+/// added at run time (`extra`, in the order they were added). Output ports are
+/// numbered `0..`, requestor ports `1000..` (`100..` in `Op::Connect`), direct
+/// sends `2000 + node`, sources `3000 + source`.
+pub fn connections(case: &Case, actor: Actor, port: u16, extra: &[(u16, u8, Edge)]) -> Vec<Edge> {
+    let edges: Vec<Edge> = match (actor, port) {
+        (Actor::Node(n), p) if p < 1000 => {
+            let mut v = resolve_port(case, n as usize, p as usize);
+            // Dynamically added connections on this port (or on the port it is a clone of).
+            let (rn, rp) = port_root(case, n as usize, p as usize);
+            for (xn, xp, e) in extra {
+                if *xp < 100 && port_root(case, *xn as usize, *xp as usize) == (rn, rp) {
+                    v.push(e.clone());
+                }
+            }
+            v
+        }
+        (Actor::Node(n), p) if p < 2000 => {
+            let (rn, rp) = req_root(case, n as usize, (p - 1000) as usize);
+            let mut v = case.nodes[rn].reqs.get(rp).cloned().unwrap_or_default();
+            for (xn, xp, e) in extra {
+                if *xp >= 100 && req_root(case, *xn as usize, (*xp - 100) as usize) == (rn, rp) {
+                    v.push(e.clone());
+                }
+            }
+            v
+        }
+        (_, p) if p >= 3000 => case.sources.get((p - 3000) as usize).map(|s| s.edges.clone()).unwrap_or_default(),
+        _ => vec![],
+    };
+    edges.into_iter().filter(|e| e.cid != 0).collect()
+}
+
+/// Root of a requestor port declared as a clone of another one.
+pub fn req_root(case: &Case, n: usize, p: usize) -> (usize, usize) {
+    if let Some(e) = case.nodes[n].reqs.get(p).and_then(|v| v.first()) {
+        if e.cid == 0 {
+            if let (Target::Node(j), Some((255, q))) = (e.target, e.filter) {
+                return req_root(case, j as usize, q as usize);
+            }
+        }
+    }
+    (n, p)
 }
 
 /// If port `p` of node `n` is declared as a clone of another port, returns the
